@@ -43,6 +43,9 @@ CLAIMED = {
  "C15": ("proof", "E1+E3", "ordering / index contracts: Vertex::plane_idx (first position or None, terminates; Verus and Kani over all inputs); sort_face_vertices only permutes the index list, keeps the first corner, orders consecutive corners along shared planes, terminates (Verus, loop invariants, verbatim slice); with_faces panics for 1D/2D and not for 3D (Kani on the real fn); face data is Some wherever the unchecked accessors are reachable (syntactic type-state obligations)",
          "sort_face_vertices may panic (postcondition on return); polytope validity (vertex = plane intersection, planarity, convexity, Euler, area) NOT decided; unsafe blocks unverified",
          TECH + " — Verus on verbatim slices with spliced contracts and loop invariants; Kani harnesses on the real crate; syntactic type-state checks"),
+ "C12": ("proof", "E1+E2", "Voronoi::finalize verified by Verus for any number of cells and faces (loop invariants; real text, de-sugared by stated mechanical rules): per-cell lists in face order, offsets = prefix sums, array = concatenation in cell order, every cell records its own index; theorem from the contract alone: the slice [offset, offset+count) lists face i iff the cell is its left or unshifted right cell; neighbour closure yields exactly the other side of listed non-boundary non-periodic faces, never the cell itself (E2, all labels)",
+         "std pipelines `(0..n).map(|_| vec![]).collect()` and `into_iter().flatten().collect()` are assumed (external_body specs); iterator adapters of neighbour_ids/faces assumed; 'without duplicates' needs a geometric fact (not decided); a bounded replay over masked real builds is reported separately and never counted as proved",
+         TECH + " — Verus on Voronoi::finalize / VoronoiCell::finalize / VoronoiFace accessors sliced from the real source + E2 contract on the neighbour_ids closure"),
 }
 NA = {
 }
